@@ -24,9 +24,9 @@ def run_one(m, suite, tier):
         suite_res = ""
         if suite:
             env = dict(os.environ, HYPOTHESIS_STORAGE_DIRECTORY=tempfile.mkdtemp(prefix="vfhyp-"))
-            r = subprocess.run("/venv/bin/python -m pytest -q -p no:cacheprovider --timeout=900 -q 2>&1 | tail -3", shell=True, cwd=d, env=env, capture_output=True, text=True)
+            r = subprocess.run("/venv/bin/python -m pytest -q -p no:cacheprovider --timeout=900 2>&1 | grep -E ' passed| failed' | tail -1", shell=True, cwd=d, env=env, capture_output=True, text=True)
             shutil.rmtree(env["HYPOTHESIS_STORAGE_DIRECTORY"], ignore_errors=True)
-            suite_res = "suite:" + r.stdout.strip().splitlines()[-1][:60]
+            suite_res = "suite:" + (r.stdout.strip().splitlines() or ["?"])[-1][:60]
         out = []
         for pr in prop.split(","):
             env = dict(os.environ, VF_REPO=d, VF_EVIDENCE_DIR=os.path.join(d, "_ev"), VF_PROCS=os.environ.get("VF_MUT_PROCS", "4"))
